@@ -353,15 +353,26 @@ FIELDS = {
     "kls": ("Any", "None", int, [str, None]),
     "mod": ("Any", "None", sys, [itertools, None]),
     "hid": ("int", "Attr(default=0, compare=False, repr=False)", 0, [9]),
+    # the two options are independent, in both declaration styles: shown-but-not-compared, compared-but-not-shown
+    "hc": ("int", "Attr(default=0, compare=False)", 0, [9]),
+    "hr": ("int", "Attr(default=0, repr=False)", 0, [9]),
+    "fc": ("int", "dataclasses.field(default=0, compare=False)", 0, [9]),
+    "fr": ("int", "dataclasses.field(default=0, repr=False)", 0, [9]),
+    "fh": ("int", "dataclasses.field(default=0, compare=False, repr=False)", 0, [9]),
     "opt": ("Optional[int]", "None", None, [3]),
     "nd": ("int", None, 5, [6, "<omit>"]),  # no default: omitting the keyword leaves it missing
     "sb": ("Any", "None", "<selfbound>", [None, 5]),  # a method of the instance ITSELF stored in an attribute (x.sb = x.m_self)
 }
 
 
+NOT_COMPARED = ("hid", "hc", "fc", "fh")  # declared compare=False
+REDEFAULTED = ("hid", "i", "s", "hc", "hr", "fc", "fr", "fh")  # given a new plain default by the spec subclass of variant sub_redefault
+NOT_SHOWN = ("hid", "hr", "fr", "fh")  # declared repr=False
+
+
 def mixed_class(order, variant="base"):
     ns = {"__name__": "verif_c10"}
-    exec(compile("from typing import Any, List, Optional\nfrom spec_classes import spec_class, Attr\n", "<c10>", "exec", dont_inherit=True), ns)
+    exec(compile("import dataclasses\nfrom typing import Any, List, Optional\nfrom spec_classes import spec_class, Attr\n", "<c10>", "exec", dont_inherit=True), ns)
     lines = ["@spec_class", "class Mixed:"]
     for n in order:
         ann, dflt, _, _ = FIELDS[n]
@@ -372,7 +383,7 @@ def mixed_class(order, variant="base"):
     # spec subclasses that make the library rebuild the inherited attribute specifications: the options the
     # owner declared (compare=False, repr=False) must survive a re-default / a change of copy policy
     if variant == "sub_redefault":
-        lines += ["@spec_class", "class Sub(Mixed):"] + [f"    {n} = {FIELDS[n][1] if not FIELDS[n][1].startswith('Attr') else '0'}" for n in order if n in ("hid", "i", "s")]
+        lines += ["@spec_class", "class Sub(Mixed):"] + [f"    {n} = {FIELDS[n][1] if not FIELDS[n][1].startswith(('Attr', 'dataclasses')) else '0'}" for n in order if n in REDEFAULTED]
     elif variant == "sub_dnc":
         lines += ["@spec_class(do_not_copy=True)", "class Sub(Mixed):", "    pass"]
     exec(compile("\n".join(lines) + "\n", "<c10-mixed>", "exec", dont_inherit=True), ns)
@@ -390,11 +401,12 @@ def build_mixed(cls, kw):
 def single_diff_worker(task):
     C = Counter()
     for order, variant in itertools.product(task["orders"], ("base", "sub_redefault", "sub_dnc", "hid_visible")):
-        if variant == "sub_redefault" and not any(n in ("hid", "i", "s") for n in order):
+        if variant == "sub_redefault" and not any(n in REDEFAULTED for n in order):
             continue
         if variant == "hid_visible" and "hid" not in order:
             continue
-        hidden = () if variant == "hid_visible" else ("hid",)
+        not_compared = tuple(n for n in NOT_COMPARED if not (variant == "hid_visible" and n == "hid"))
+        hidden = tuple(n for n in NOT_SHOWN if not (variant == "hid_visible" and n == "hid"))
         cls = mixed_class(order, variant)
         C.inc("states")
         base_kw = {n: copy.copy(FIELDS[n][2]) if isinstance(FIELDS[n][2], list) else FIELDS[n][2] for n in order}
@@ -421,7 +433,7 @@ def single_diff_worker(task):
                 y = build_mixed(cls, kw)
                 C.inc("transitions")
                 C.inc("evaluations")
-                exp = (n in hidden)
+                exp = (n in not_compared)
                 try:
                     got1, got2 = bool(x == y), bool(y == x)
                     ne = bool(x != y)
@@ -685,7 +697,8 @@ def main(run):
     names = ["i", "cb", "s", "hid", "fn"] if quick else ["i", "cb", "s", "hid", "fn", "xs"]
     orders = list(itertools.permutations(names))
     extra = [("cb", "mod", "kls", "i"), ("mod", "cb", "i", "opt"), ("kls", "i", "cb", "xs", "hid"), ("opt", "cb", "mod", "s"),
-             ("nd", "cb", "i"), ("cb", "nd", "s"), ("i", "cb", "hid", "nd"), ("sb", "i", "xs"), ("i", "sb", "cb"), ("xs", "hid", "sb")]
+             ("nd", "cb", "i"), ("cb", "nd", "s"), ("i", "cb", "hid", "nd"), ("sb", "i", "xs"), ("i", "sb", "cb"), ("xs", "hid", "sb"),
+             ("i", "hc", "hr", "s"), ("fc", "i", "fr"), ("fr", "cb", "fc", "s"), ("hr", "fc", "i", "hc", "fr"), ("fh", "i", "fr", "fc"), ("s", "fh", "hid")]
     orders += extra
     for i in range(0, len(orders), 12):
         tasks.append({"part": "single", "orders": orders[i:i + 12]})
